@@ -132,7 +132,7 @@ WITNESS = dict(n=1, nsteps=1, grid_kind="witness", times=[0.0, 1.0], omega=[[0.0
                pmode="zero", U=[[0.0]], masked=[[0.0]], slm_end=0.0, init=None, kt=1e-10, obs0=True)
 
 
-def classify(case, msg):
+def classify(case, msg, out=None):
     """Narrow witness class of an oracle failure. `krylov-early-accept-weak-drive` iff for some step of
     the run, started from the *exact* state, the real `krylov_exp_impl` (a) returns converged, not by
     happy breakdown, (b) is off by more than the per-step allowance (10·tol + 1e-9)·|v|, and (c) would
@@ -145,6 +145,7 @@ def classify(case, msg):
     from emu_base.math.krylov_exp import krylov_exp_impl
     psi = ic.psi0(case)
     real_me = torch.linalg.matrix_exp
+    hit, pred, exacts = False, [0.0], [psi]
     for dt, H in ic.piecewise(case):
         A = torch.tensor(-1j * dt * H)
         seen, exps = [], []
@@ -173,9 +174,143 @@ def classify(case, msg):
                 err1, err2 = abs(complex(expd[j + 1, 0])), abs(complex(expd[j + 2, 0])) * avnorm
                 est = err1 if err1 < err2 else err1 * err2 / (err1 - err2)
                 if est >= case["kt"]:
-                    return KLASS
+                    hit = True
+        pred.append(pred[-1] + err)
+        exacts.append(exact)
         psi = exact
-    return None
+    if not hit:
+        return None
+    if out is not None and out.get("results") is not None:
+        # the mechanism must also explain the *size* of what was observed (3x the summed per-step errors + allowance)
+        first = 0 if case["obs0"] else 1
+        scale = max(float(np.linalg.norm(exacts[0])), 1.0)
+        for pos, k in enumerate(range(first, len(case["times"]))):
+            v = out["results"].state[pos].data.numpy()
+            if float(np.linalg.norm(v - exacts[k])) > 3.0 * pred[k] + tol_of(k, case["kt"]) * scale:
+                return None
+    return KLASS
+
+
+# ------------------------------------------------------------------ real Pulser sequences through the real adapter
+def gen_pulser(rng):
+    """rydberg_global + a detuning map (DMM) with unequal weights, or + an SLM mask; constant pulses whose
+    durations are multiples of the step, so that every step lies inside one pulse and the per-atom sample
+    of the step is unambiguous (no interpolation convention enters the reference)."""
+    n = rng.randint(2, 4)
+    dt = rng.choice([10, 20])
+    coords = [(7.0 * j + rng.uniform(-0.8, 0.8), rng.uniform(-1.5, 1.5)) for j in range(n)]
+    pulses = [(rng.choice([20, 40, 60]), rng.uniform(3.0, 12.0), rng.uniform(-8.0, 8.0), rng.choice([0.0, rng.uniform(0.0, 6.0)]))
+              for _ in range(rng.randint(1, 3))]
+    kind = rng.choice(["dmm", "dmm", "slm"])
+    weights = [rng.uniform(0.05, 1.0) for _ in range(n)]
+    weights[0] = min(weights[0], 0.3)
+    weights[-1] = max(weights[-1], 0.7)                       # atom 0 and the last atom see clearly different detunings
+    masked = sorted(rng.sample(range(n), rng.randint(1, n - 1))) if kind == "slm" else []
+    return dict(n=n, dt=dt, coords=coords, pulses=pulses, kind=kind, weights=weights, dmm_det=-rng.uniform(5.0, 30.0),
+                slm_targets=masked, kt=rng.choice([1e-8, 1e-10]), grid_kind="pulser:" + kind)
+
+
+def build_pulser(case):
+    import pulser
+    from pulser.devices import MockDevice
+    ids = [f"q{j}" for j in range(case["n"])]
+    reg = pulser.Register(dict(zip(ids, case["coords"])))
+    seq = pulser.Sequence(reg, MockDevice)
+    seq.declare_channel("ch", "rydberg_global")
+    if case["kind"] == "dmm":
+        seq.config_detuning_map(reg.define_detuning_map(dict(zip(ids, case["weights"]))), "dmm_0")
+    else:
+        seq.config_slm_mask([ids[j] for j in case["slm_targets"]])
+    for dur, amp, det, ph in case["pulses"]:
+        seq.add(pulser.Pulse.ConstantPulse(dur, amp, det, ph), "ch")
+    if case["kind"] == "dmm":
+        seq.add_dmm_detuning(pulser.ConstantWaveform(sum(p[0] for p in case["pulses"]), case["dmm_det"]), "dmm_0")
+    return seq, ids
+
+
+def run_pulser(case):
+    """real Sequence -> real PulserData (adapter) -> SequenceData -> emu-sv; the reference is built from
+    pulser's own per-atom samples (`to_nested_dict(all_local=True)`), the register distances and the device's
+    C6 — nothing from the adapter. Returns (msg|None, worst ratio)."""
+    import logging
+    import warnings
+    import torch
+    import harness.pytest_compat  # noqa: F401  (squeezes the (1,N,N) interaction matrix of pulser-core 1.9.1)
+    from harness import compat
+    from pulser.backend import StateResult, Occupation
+    from pulser.devices import MockDevice
+    from pulser.sampler import sample
+    from emu_base.pulser_adapter import PulserData
+    from emu_sv import SVConfig
+    from scipy.linalg import expm
+    seq, ids = build_pulser(case)
+    n, dt = case["n"], case["dt"]
+    with warnings.catch_warnings():
+        warnings.simplefilter("ignore")
+        smp = sample(seq)
+        T = int(smp.max_duration)
+        grid = [float(t) for t in range(0, T + 1, dt)]
+        ev = [t / T for t in grid]
+        cfg = SVConfig(gpu=False, log_level=logging.ERROR, dt=dt, krylov_tolerance=case["kt"],
+                       observables=[StateResult(evaluation_times=ev), Occupation(evaluation_times=ev)])
+        data = list(PulserData(sequence=seq, config=cfg, dt=dt).get_sequences())[0]
+        res = compat.run_sv(data, cfg)
+        loc = smp.to_nested_dict(all_local=True, samples_type="tensor")["Local"]["ground-rydberg"]
+    # the adapter's grid is the dt-grid up to its own rounding (i*dt/T*T, C21's business: 110.00000000000001)
+    at = [float(t) for t in data.target_times]
+    if len(at) != len(grid) or any(abs(a - b) > 1e-9 * T for a, b in zip(at, grid)):
+        return f"adapter grid {at} is not the dt-grid {grid}", 0.0
+    sig = {q: {k: torch.as_tensor(loc[q][k]).real.to(torch.float64).numpy() for k in ("amp", "det", "phase")} for q in ids}
+    c6 = float(MockDevice.interaction_coeff)
+    U = [[0.0] * n for _ in range(n)]
+    # interaction matrix: C6/r^6 from the coordinates must agree with the one pulser hands over to 1e-6 relative
+    # (pulser-core computes it with float32-level rounding, 4e-7 observed; C23 owns that matrix) — the reference then
+    # uses pulser's values so that the comparison isolates the *drives*
+    F = torch.as_tensor(data.interaction_matrix.full_matrix).to(torch.float64).numpy()
+    for i in range(n):
+        for j in range(i + 1, n):
+            r = float(np.hypot(case["coords"][i][0] - case["coords"][j][0], case["coords"][i][1] - case["coords"][j][1]))
+            if abs(F[i, j] - c6 / r ** 6) > 1e-6 * c6 / r ** 6 or F[i, j] != F[j, i]:
+                return f"interaction U[{i},{j}] = {F[i, j]!r} from the adapter, C6/r^6 = {c6 / r ** 6!r}", 0.0
+            U[i][j] = U[j][i] = float(F[i, j])
+    slm_end = float(seq._slm_mask_time[1]) if case["kind"] == "slm" and len(seq._slm_mask_time) > 1 else 0.0
+    psi = np.zeros(2 ** n, dtype=complex)
+    psi[0] = 1.0
+    exact = [psi]
+    for k in range(len(grid) - 1):
+        a, b = int(grid[k]), int(grid[k + 1])
+        row = {}
+        for name in ("amp", "det", "phase"):
+            vals = []
+            for q in ids:
+                seg = sig[q][name][a:b]
+                if float(seg.max() - seg.min()) != 0.0:
+                    return None, -1.0            # a step straddles a pulse edge: not judged (never by construction)
+                vals.append(float(seg[0]))
+            row[name] = vals
+        Uk = [[(0.0 if (grid[k] < slm_end and (i in case["slm_targets"] or j in case["slm_targets"])) else U[i][j])
+               for j in range(n)] for i in range(n)]
+        H = ic.dense_h(row["amp"], row["det"], row["phase"], Uk)
+        psi = expm(-1j * (b - a) * ic.COEFF * H) @ psi
+        exact.append(psi)
+    worst = 0.0
+    nops = [np.real(np.diag(ic.embed(ic.NN, q, n))) for q in range(n)]
+    if len(res.state) != len(grid):
+        return f"{len(res.state)} states reported for {len(grid)} evaluation times", worst
+    for k in range(len(grid)):
+        allowed = tol_of(k, case["kt"])
+        v = res.state[k].data.numpy()
+        err = float(np.linalg.norm(v - exact[k]))
+        worst = max(worst, err / allowed)
+        if not err <= allowed:
+            return (f"[real Pulser sequence, {case['kind']}] state at t={grid[k]} differs from exact evolution under the per-atom "
+                    f"samples by {err:.3e} > {allowed:.3e}"), worst
+        occ = res.occupation[k].numpy()
+        occ_ex = np.array([float(np.sum(nops[q] * np.abs(exact[k]) ** 2)) for q in range(n)])
+        eo = float(np.max(np.abs(occ - occ_ex)))
+        if not eo <= 2 * allowed:
+            return f"[real Pulser sequence, {case['kind']}] occupation at t={grid[k]} differs from exact by {eo:.3e}", worst
+    return None, worst
 
 
 def gen(rng, nmax, max_steps):
@@ -220,7 +355,9 @@ def check(rep: Report, tier: str, seed: int) -> None:
                 "omega/delta/phi rows (pairwise distinct), random U, SLM mask ending inside a step / on a grid point / at a "
                 "mid-point / after the end, laser-off steps (omega = delta = 0 exactly, U != 0) incl. a dedicated pulse/delay/pulse "
                 "stream, optional random initial state (also unnormalised: accepted as is) with a second run on the same "
-                "config object and a bit-for-bit check of the caller's tensor, krylov_tolerance 1e-6..1e-12; malformed stream: "
+                "config object and a bit-for-bit check of the caller's tensor, krylov_tolerance 1e-6..1e-12; real Pulser "
+                "sequences (rydberg_global + detuning map with unequal weights, or + SLM mask) through the real PulserData "
+                "adapter against a reference built from pulser's per-atom samples; malformed stream: "
                 "short, empty, zero-duration grids. non-trivial = at least 2 steps; distinct = distinct (grid, slm_end, n)")
     rep.assumptions = [
         "C07 accuracy clause + C06 (KrylovContract: stepper.apply returns exp(-i dt H) psi within eps*|psi|) — assumed in "
@@ -233,7 +370,7 @@ def check(rep: Report, tier: str, seed: int) -> None:
     rng = seeded(seed * 7919 + 101)
     import torch
     torch.manual_seed(seed)
-    n_cases = 80 if tier == "quick" else 3000
+    n_cases = 70 if tier == "quick" else 3000
     cases, outs, due = [], [], []
     worst = 0.0
     n_delay = 14 if tier == "quick" else 300
@@ -251,7 +388,9 @@ def check(rep: Report, tier: str, seed: int) -> None:
                 rep.count("second_runs_same_config")
                 msg2 = (f"second run failed with {out2['status']}" if out2["status"] != "ok" else oracle(case, out2)[0])
                 if msg2:
-                    rep.fail("second run with the same config object: " + msg2, ic.ser_case(case, second_run=True))
+                    rep.fail("second run with the same config object: " + msg2, ic.ser_case(case, second_run=True),
+                             klass=(classify(case, msg2, out2) if out2["status"] == "ok" and out["init_unchanged"] is not False
+                                    and out2["init_unchanged"] is not False else None))
         except Exception as e:  # the real code misbehaving is a finding candidate
             rep.fail(f"real SVBackendImpl raised {type(e).__name__}: {e}", ic.ser_case(case))
             continue
@@ -272,7 +411,7 @@ def check(rep: Report, tier: str, seed: int) -> None:
             continue
         msg, w = oracle(case, out)
         if msg:
-            k = classify(case, msg)
+            k = classify(case, msg, out)
             rep.hist("oracle_failure_class", k)
             rep.fail(msg, ic.ser_case(case), klass=k)
         else:
@@ -282,7 +421,24 @@ def check(rep: Report, tier: str, seed: int) -> None:
     wmsg = oracle(WITNESS, wout)[0] if wout["status"] == "ok" else None
     rep.extra["witness_D20_C01"] = wmsg or "no longer fails (fixed?)"
     if wmsg:
-        rep.fail(wmsg, ic.ser_case(WITNESS), klass=classify(WITNESS, wmsg))
+        rep.fail(wmsg, ic.ser_case(WITNESS), klass=classify(WITNESS, wmsg, wout))
+    # real Pulser sequences (rydberg_global + detuning map / SLM mask) through the real adapter
+    pworst = 0.0
+    for _ in range(10 if tier == "quick" else 200):
+        case = gen_pulser(rng)
+        rep.hist("grid", case["grid_kind"])
+        rep.case(key=("pulser", case["n"], case["kind"], case["pulses"][0][1]), nontrivial=True)
+        try:
+            msg, w = run_pulser(case)
+        except Exception as e:
+            rep.fail(f"real adapter / SVBackend raised {type(e).__name__}: {e}", ic.ser_case(case, stream="pulser"))
+            continue
+        if w < 0:
+            rep.count("pulser_cases_not_judged")
+        pworst = max(pworst, w)
+        if msg:
+            rep.fail(msg, ic.ser_case(case, stream="pulser"))
+    rep.extra["pulser_stream_worst_error_over_allowed"] = round(pworst, 4)
     for case in ic.malformed_cases(rng, 25 if tier == "quick" else 300):
         case["kt"], case["obs0"] = 1e-10, True
         try:
@@ -334,6 +490,14 @@ def replay(rep: Report, path: str) -> int:
     bad = 0
     for f in data.get("failing_inputs", []):
         case = f["data"]
+        if case.get("stream") == "pulser":
+            try:
+                msg = run_pulser(case)[0]
+            except Exception as e:
+                msg = f"raised {type(e).__name__}: {e}"
+            print("replay:", msg or "property holds on this input now")
+            bad += bool(msg)
+            continue
         try:
             out = run_case(case)
             if case.get("second_run") and out["status"] == "ok":
